@@ -358,6 +358,27 @@ def check_c08(v: Verdict, t1_summary, n_cases, max_ops):
             has_wrap = True
             A.do(("get", 0, "DUn", pool.tid(list[int]), True, False))          # wrapper cached, inner hook in the direct table
             A.do(("get", 0, "DUn", pool.tid(L.Dict[str, L.P]), True, False))   # unrelated first use clears the lru cache
+        targeted = None
+        if not scripted_f8 and ci % 2 == 1:
+            # warm a container of t (its generated hook captures t's hook and may sit in the direct table), then register a hook
+            # for t through each registration path, then look at the container again
+            t = rng.choice(L.NESTABLE)
+            d = rng.choice(["DUn", "DSt"])
+            for outer in (pool.lists[t], pool.holders[t]):
+                A.do(("get", 0, d, pool.tid(outer), True, True))
+            accepting = [pid for pid, _, fn in preds if L.safe_call(fn, t)]
+            kind = rng.choice(["regfunc", "regfunc", "reghook", "regfact"]) if accepting else "reghook"
+            if kind == "reghook":
+                st = ("reghook", 0, d, pool.tid(t), g.fresh())
+            elif kind == "regfunc":
+                st = ("regfunc", 0, d, rng.choice(accepting), g.fresh())
+            else:
+                st = ("regfact", 0, d, rng.choice(accepting), g.fresh(), rng.random() < 0.5, None)
+            if not (st[0] == "reghook" and d == "DSt" and pool.is_union(t)):
+                A.do(st)
+                B.do(st)
+                hist["registrations"] += 1
+                targeted = (d, t)
         hist["wrap_cases"] += has_wrap
         if has_wrap:
             battery = [("DUn", pool.tid(t)) for t in (list[int], L.List[int], L.List[L.P])]
@@ -384,9 +405,8 @@ def check_c08(v: Verdict, t1_summary, n_cases, max_ops):
                                 {"lane": "DISP/C08", "warmed_steps": fmt_case(pool, A.steps), "probe": f"{d} {pool.names[tid]}",
                                  "warmed": xa, "fresh": xb})
         if not has_wrap:
-            for t in rng.sample(L.NESTABLE, 3):
-                d = rng.choice(["DUn", "DSt"])
-                kind = rng.choice(["list", "holder"])
+            extra = [(targeted[1], targeted[0], k) for k in ("list", "holder")] if targeted else []
+            for t, d, kind in extra + [(t, rng.choice(["DUn", "DSt"]), rng.choice(["list", "holder"])) for t in rng.sample(L.NESTABLE, 3)]:
                 if d == "DUn" and kind == "list" and not full:
                     continue
                 s = ("nested", 0, d, pool.tid(t), kind)
